@@ -222,6 +222,9 @@ TSAN_KNOWN = (
     ("C07:tsan-race:coder-progress-counters",
      re.compile(r"worker_decoder: thr->coder->progress_(in|out) \+= thr->(in|out)_pos;"),
      re.compile(r"stream_decode_mt: (coder->progress_(in|out) \+= \*(in|out)_pos - (in|out)_old;|\+\+coder->progress_in;)")),
+    ("C07:tsan-race:thr-in-pointer-read-after-full-copy",
+     re.compile(r"worker_decoder: thr->in = NULL;"),
+     re.compile(r"stream_decode_mt: lzma_bufcpy\(in, in_pos, in_size, coder->thr->in,$")),
     ("C07:tsan-race:partial_update-enabled-unlocked",
      re.compile(r"worker_decoder: thr->partial_update = PARTIAL_ENABLED;"),
      re.compile(r"read_output_and_wait: if \(coder->thr != NULL && coder->thr->partial_update$")),
@@ -353,7 +356,7 @@ def run(ctx):
     for e in entries:
         ctx.count("file-kind:" + e["kind"])
     # ---- K1: direct oracle under the controlled scheduler
-    ncases = 10000 if quick else 160000
+    ncases = 20000 if quick else 160000
     cases = []
     pools = pools_of(entries)
     for i in range(ncases):
@@ -461,8 +464,8 @@ def run_cases(ctx, exe, cases, label, model_ok, tsan=False):
     if trace_jobs:
         if ctx.quick():
             trace_jobs = [j for j in trace_jobs if len(j[3]["ev"]) < 150000]
-            if len(trace_jobs) > 1000:
-                trace_jobs = trace_jobs[::max(1, len(trace_jobs) // 1000)]
+            if len(trace_jobs) > 2000:
+                trace_jobs = trace_jobs[::max(1, len(trace_jobs) // 2000)]
         else:
             cap = int(os.environ.get("C07_TRACE_CAP", "8000"))
             if len(trace_jobs) > cap:
